@@ -71,7 +71,7 @@ func loadPackages(dir string, overlay map[string][]byte) (*packages.Package, err
 }
 
 func buildSSAFrom(fset *token.FileSet, pkg *types.Package, files []*ast.File, info *types.Info) (*ssa.Program, *ssa.Package) {
-	prog := ssa.NewProgram(fset, ssa.InstantiateGenerics)
+	prog := ssa.NewProgram(fset, ssa.InstantiateGenerics|ssa.GlobalDebug)
 	seen := map[*types.Package]bool{}
 	var createAll func(pkgs []*types.Package)
 	createAll = func(pkgs []*types.Package) {
@@ -451,6 +451,11 @@ func generateGhost(p *packages.Package, funcs map[string]*ssa.Function, cs *Cont
 			}
 			if _, isPkg := importNameOf(p, id); isPkg {
 				tp.imports[importPathOf(p, id)] = id
+				continue
+			}
+			if allowLocals && id == "rangeindex" {
+				ps = append(ps, ghostParam{id, "int"})
+				have[id] = true
 				continue
 			}
 			if allowLocals && target != nil {
